@@ -409,6 +409,16 @@ pub fn exec_serde(t: &[&str]) -> String {
             msgs.push(format!("FAIL C14 improper list accepted where a sequence or tuple ({}) is expected: {}", t[1], res));
         }
     }
+    if t[0] != "ser" && matches!(t[1], "e1" | "e2" | "opt_e1") {
+        // ... and the items of a tuple variant are a tuple position: `(gamma 1 "x" . 5)` is an improper list
+        let v = dec_value(&mut payload.iter().copied());
+        let tuple_variant = |name: &str| if t[1] == "e2" { name == "T" || name == "ET" } else { name == "gamma" };
+        if let Some((Value::Symbol(name), rest)) = v.as_pair() {
+            if tuple_variant(name) && rest.is_cons() && !rest.is_list() && !res.starts_with("err") {
+                msgs.push(format!("FAIL C14 improper list accepted as the items of tuple variant {}: {}", name, res));
+            }
+        }
+    }
     LAST_MSGS.with(|m| *m.borrow_mut() = msgs);
     res
 }
